@@ -93,6 +93,7 @@ package boltz
 
 // restrict: an entity that is still referenced through the set symbol cannot be deleted, and the check writes nothing
 //@ func NewReferenceByIdError
+//@   trusted error constructor (formats its arguments)
 //@   pure
 //@   ensures result != nil
 //@ func (*fkDeleteConstraint).ProcessBeforeDelete
